@@ -128,6 +128,11 @@ def run(ctx, rep):
     # FLUSH
     c06_shared.flush_rule(r4, lib)
     c06_shared.route(rep, lib, rid="C06-ROUTE")
+    # a failed read or write must surface as Err from go(), otherwise the exit status stays 0
+    from rules import c16
+    c16.eof_distinct(rep, lib)
+    c16.no_drop(rep, lib)
+    c06_shared.recover(rep, lib)
 
 
 def _ops(rv):
